@@ -14,4 +14,7 @@ Short == Len(hist) <= 8
 DumpCrash == (pass = "crashed") => PrintT("BEH " \o ToJson(hist))
 SimInit2 == MCInit /\ NearMarks
 SimSpec2 == SimInit2 /\ [][MCNext]_<<vars, hist>>
+\* three torrents: two within their share and one above it, total at or above the high mark
+Near3 == /\ \A t \in T : b[t] \in 1..12 /\ Alloc \in 15..22
+SimSpec3 == (MCInit /\ Near3) /\ [][MCNext]_<<vars, hist>>
 =============================================================================
